@@ -44,7 +44,16 @@ Judge ==
         \cup (IF strictBoth /\ o.established /\ ~o.agreed THEN {"C_strict_not_agreed"} ELSE {})
         \cup (IF ~strictBoth /\ o.established /\ ~IsPrefix(o.recv, o.peer_sent) THEN {"C_nonstrict_stream_differs"} ELSE {})
         \cup (IF phase[E] # "dead" /\ ~o.established /\ ~T.attacked THEN {"C_untouched_handshake_failed"} ELSE {})
-TSpec == TInit /\ [][Feed \/ Judge]_tvars
+\* re-exchange records (StrictRekey.tla): strict mode agreed initially, then further exchanges with a peer that may
+\* stop repeating the marker; judged: the mode stays, both counters restart at 0 after EVERY NEWKEYS, session works
+JudgeRekey ==
+  /\ l = 1 /\ T.kind = "rekeys" /\ l' = N + 2 /\ tid' = tid /\ UNCHANGED vars
+  /\ LET o == T.obs IN
+     bad' = (IF o.agreed THEN {} ELSE {"P_strict_mode_dropped_by_reexchange"})
+            \cup (IF \A i \in 1..Len(o.in_seq) : o.in_seq[i] \in {0, -1} THEN {} ELSE {"P_inbound_seqno_not_reset_at_rekey_newkeys"})
+            \cup (IF \A i \in 1..Len(o.out_seq) : o.out_seq[i] \in {0, -1} THEN {} ELSE {"P_outbound_seqno_not_reset_at_rekey_newkeys"})
+            \cup (IF o.all_ok THEN {} ELSE {"P_session_lost_in_strict_reexchange"})
+TSpec == TInit /\ [][(T.kind = "handshake" /\ (Feed \/ Judge)) \/ JudgeRekey]_tvars
 Report == /\ (bad # {} => PrintT(<<"VERDICT", tid, l - 1, bad>>))
           /\ (l = N + 2 => PrintT(<<"DONE", tid>>))
 =============================================================================
